@@ -188,6 +188,16 @@ CHECKS["C19"] = dict(
     design_ref="DESIGN.md section 4 C19",
     note=TB)
 
+CHECKS["C03"] = dict(
+    category="other",
+    technique="sibling cross-check of the two visitor classes against the grammar; operator chain agreement; template placeholder/binding and child-path wiring analysis; exception-effect arrivals vs the conversion boundary of result()",
+    text="Decides necessary conditions of runner agreement: both engines cover every grammar rule and the same macros (each with its runtime helper); every operator token reaches the same "
+         "Python operator in both; every template placeholder is bound, each operand placeholder to the child in that operand position, operands passed in order; every exception class "
+         "that can arrive in result() is caught there and has an exact-class message entry; raw token text never lands in code position. Equality of computed values for all "
+         "programs is NOT decided (it needs execution).",
+    design_ref="DESIGN.md section 4 C03",
+    note=TB)
+
 PENDING = {}  # property id -> reason, for properties not claimed
 
 def main():
